@@ -103,6 +103,7 @@ class ParseContext:
         self.parser_macros_plugins = {}
         self.random_references = []
         self.files_being_parsed = []
+        self.macros_being_expanded = []
 
     def line_num(self, obj=None) -> Dict:
         if not obj:
@@ -308,6 +309,11 @@ def include_macro(
     parsed_macro = parse_element(
         macro, "macro", {}, {"fields": Dict, "friends": List, "include": str}, context
     )
+    if name not in parent_macros and name in context.macros_being_expanded:
+        raise exc.DataGenError(
+            f"Macro `{name}` includes itself through a nested object template",
+            **context.line_num(macro),
+        )
     if name in parent_macros:
         idx = parent_macros.index(name)
         raise exc.DataGenError(
@@ -317,9 +323,13 @@ def include_macro(
 
     fields = []
     friends = []
-    parse_inclusions(macro, fields, friends, context, parent_macros + (name,))
-    fields.extend(parse_fields(parsed_macro.fields or {}, context))
-    friends.extend(parse_friends(parsed_macro.friends or [], context))
+    context.macros_being_expanded.append(name)
+    try:
+        parse_inclusions(macro, fields, friends, context, parent_macros + (name,))
+        fields.extend(parse_fields(parsed_macro.fields or {}, context))
+        friends.extend(parse_friends(parsed_macro.friends or [], context))
+    finally:
+        context.macros_being_expanded.pop()
 
     return _dedupe_field_list(fields), friends
 
